@@ -155,9 +155,9 @@ Proof.
   - intros k Hb. now contradiction Hb.
 Qed.
 
-(* Stage 3a: a build from a state at rest that returns a value (no failed assert) returns the clean value of the requested key for
-   the current environment, and leaves the engine in a state at rest again - whatever the schedule.  Restrictions: same rule table,
-   every earlier build completed; the engine instance is not restarted. *)
+(* Stage 3: a build from a state at rest that returns a value (no failed assert) returns the clean value of the requested key for
+   the current environment, and leaves the engine in a state at rest again - whatever the schedule.  Restriction: every earlier
+   build completed (HInv: no rule is marked cancelled).  Restarts: ImplInc13. *)
 Theorem build_values_clean env fuel pfuel cfuel s0 root sched sf m : HInv s0 ->
   ibuild rules env F ord syncp fuel pfuel s0 root sched = (RDone sf, m) -> is_fault sf = None ->
   ((rank root < cfuel)%nat -> res_value (res_of sf root) = cv rules env F cfuel root) /\ HInv sf.
